@@ -292,7 +292,7 @@ def _rd_extras(rng, case):
         case["bs_str"] = True
     if all(kd == "s" for _, kd in schema) and u() < 0.3:
         case["single_dtype"] = True
-    if case["nlq"] and not case["comp"] and u() < 0.55:
+    if case["nlq"] and not case["comp"] and case["skip"] is None and u() < 0.55:
         case["nlq_blocked"] = True
         case["blocksize"] = {"nlq": rng.randrange(2 ** 31)}
 
@@ -621,6 +621,14 @@ def _header_beyond_first_block(case):
     return False
 
 
+def _projects_all_file_columns(case):
+    """Input-feature predicate: the column selection after read_csv names exactly the columns read from the file, in file order."""
+    if case["project"] is None or case["project_path"]:
+        return False
+    use = sorted(case["usecols"]) if case["usecols"] is not None else list(range(len(case["schema"])))
+    return list(case["project"]) == use
+
+
 # ------------------------------------------------------------------------------------------------
 # facet rd
 
@@ -717,9 +725,12 @@ def _run_rd(case, tmp, stats=None):
         stats.update(nparts=nparts, nfiles=len(paths), rows=len(expected), header_len=infos[0]["hdr_end"] or infos[0]["first_row_end"],
                      bs=bs, size=sum(i["size"] for i in infos), quoted=any(b'"' in d for d, _ in files))
     pdates = [c for c in kw.get("parse_dates", []) if project is None or c in project]
-    if len(paths) > 1:
+    relax_dates = len(paths) > 1 or case["sample"] is not None
+    if relax_dates:
         # several files: the reference is a pandas concat, which degrades a parse_dates column to object as soon as one
-        # file has no data rows (an artefact of the reference, not of read_csv) -> compare such columns as datetimes
+        # file has no data rows (an artefact of the reference, not of read_csv) -> compare such columns as datetimes.
+        # sample=False / a short sample: the sample may hold no data row, pandas types the parse_dates column of such a
+        # sample as object and that becomes the declared dtype (dtype inference from the sample, see Calibration)
         for c in pdates:
             for side in (got, expected):
                 if c in side.columns and str(side[c].dtype) in ("object", "str"):
@@ -728,7 +739,7 @@ def _run_rd(case, tmp, stats=None):
                     except Exception:  # noqa: BLE001
                         pass
     m = frames.compare(got, expected, ordered=True, check_index=False, check_dtype=True)
-    if m is not None and m[0] == "dtype" and len(paths) > 1 and any(("%r" % c) in m[1] for c in pdates):
+    if m is not None and m[0] == "dtype" and relax_dates and any(("%r" % c) in m[1] for c in pdates):
         m = frames.compare(got, expected, ordered=True, check_index=False, check_dtype=False)
     if m is not None:
         return ("bad", m[0], "%s | got %s | expected %s" % (m[1], _show(got), _show(expected)), None)
@@ -904,7 +915,7 @@ _JUNK = b'STALE;CONTENT,"of an earlier file\n' * 40
 
 def _rt_paths(case, npart, out, ext):
     """The paths to_csv is expected to write (to put stale content there beforehand)."""
-    nf = _NAMEFN[case["namefn"]] if case["namefn"] else str
+    nf = _NAMEFN[case["namefn"]] if case["namefn"] else (lambda j: str(j).zfill(len(str(npart - 1))))   # default names are zero padded
     layout = case["layout"]
     if layout == "glob":
         return [os.path.join(out, "part-%s.csv%s" % (nf(j), ext)) for j in range(npart)]
@@ -1277,6 +1288,10 @@ def _label(facet, needed, symptom, message, small=None):
     if facet == "rd" and "blocked" in needed and "blank-lines-before-header" in needed:
         # the header is taken to be the first physical line of the sample, i.e. the blank line
         return "read_csv:blank-lines-before-header&blocked:" + _symclass(symptom)
+    if facet == "rd" and symptom == "columns" and small is not None and "include_path" in needed and "project" in needed \
+            and _projects_all_file_columns(small):
+        # selecting exactly the columns of the file (in file order) is not recognised as a projection, the path column stays
+        return "read_csv:include_path_column&projection-of-all-file-columns:columns"
     hdr_symptom = symptom in ("length", "columns", "values") or symptom == "KeyError@dataframe/io/csv.py:_read_csv"
     if hdr_symptom and small is not None and (
             (facet == "rd" and "blocked" in needed and _row_starts_with_header(small))
